@@ -312,7 +312,7 @@ fn index_case(seed: u64, idx: usize, sc: Scale, out: &mut Out) {
                 };
                 let left = target_nodes.saturating_sub(index.len()).max(1);
                 let b = if b <= room { b.min(left) } else if b > 400 { left.min(101) } else { b };
-                let b = if sc.big_batch { b.min(400) } else { b.min(if rng.chance(0.05) { 101 } else { 12 }) };
+                let b = if sc.big_batch { b.min(400) } else { b.min(if rng.chance(0.02) { 101 } else { 12 }) };
                 let mut vecs: Vec<Vec<f32>> = (0..b).map(|_| pick_vec(&mut rng)).collect();
                 // a batch with one wrong-dimension member (first, middle or last; shorter or longer) must be
                 // refused as a whole before anything is stored
